@@ -196,6 +196,9 @@ func e2eHarness(rc *RunCtx) {
 					p.timeout = 3 * time.Second // D9: the call may legitimately fail; do not wait 40 simulated days for it
 				}
 				p.via2 = tp.Intn("call", 3) == 0
+				if j > 0 && rc.Prop != "C12" && p.shape == nil && mine[j-1].shape == nil && tp.Intn("reuse", 5) == 4 {
+					p.reuse = mine[j-1]
+				}
 				plans = append(plans, p)
 				env.plans[p.tag] = p
 				mine = append(mine, p)
@@ -757,10 +760,22 @@ func e2eCheck(rc *RunCtx, env *e2eEnv, plans []*callPlan, cli, prov, srv, added 
 				rep = w.frame
 			}
 		}
-		if p.oneway && nrep != 0 {
+		if p.oneway && nrep != 0 && len(p.sameCtx) < 2 {
 			rc.Violate("C03", "oneway-produced-reply", key, fmt.Sprintf("%s: %d reply frames", where, nrep))
 		}
-		if !p.oneway && nrep != 1 {
+		if twoWay := func() (n int) {
+			for _, q := range p.sameCtx {
+				if !q.oneway && q.returned {
+					n++
+				}
+			}
+			return
+		}(); len(p.sameCtx) > 1 {
+			// one FContext object, one op id, several calls: as many replies as two-way calls
+			if nrep != twoWay {
+				rc.Violate("C09", "reply-frame-count", key, fmt.Sprintf("%s: %d reply frames carry the op id shared by the %d two-way calls made with this context", where, nrep, twoWay))
+			}
+		} else if !p.oneway && nrep != 1 {
 			rc.Violate("C09", "reply-frame-count", key, fmt.Sprintf("%s: %d reply frames carry its op id", where, nrep))
 		}
 		// ---- C09: context propagation
@@ -780,10 +795,13 @@ func e2eCheck(rc *RunCtx, env *e2eEnv, plans []*callPlan, cli, prov, srv, added 
 			rc.Violate("C09", "opid-collision", key, fmt.Sprintf("%s: handler op id %s also used by %s", where, p.seenOpid, prev))
 		}
 		opids[p.seenOpid] = p.tag
-		if prev, dup := opids[p.opid]; dup {
+		if prev, dup := opids[p.opid]; dup && (len(p.sameCtx) < 2 || !strings.HasPrefix(prev, "ctx-of:"+p.sameCtx[0].tag)) {
 			rc.Violate("C09", "opid-collision", key, fmt.Sprintf("%s: op id %s also used by %s", where, p.opid, prev))
 		}
 		opids[p.opid] = p.tag
+		if len(p.sameCtx) > 1 {
+			opids[p.opid] = "ctx-of:" + p.sameCtx[0].tag
+		}
 		if !p.oneway {
 			for k, v := range p.respHdr {
 				if got, ok := p.gotRespHdr[k]; !ok || got != v {
